@@ -695,7 +695,7 @@ end frames
 def PJ (mods : List Spec.AMod) (conn : Bool) (dm : Int) : Prop :=
   (conn || mods.any (fun m => m.alive && m.modId == dm)) = true
 
-theorem w_of_sim {cfg : Cfg} {a : Spec.A} {s : State} (sim : Sim cfg a s) (mods : List Spec.AMod)
+theorem w_of_sim {cfg : Cfg} {a : Spec.A} {s : State} (sim : SimM cfg a s) (mods : List Spec.AMod)
     (hsub : ∀ am, am ∈ a.mods → am ∈ mods) (conn : Bool) : W (PJ mods conn) s := by
   intro u m hm hu
   have hl := (sim.live u hu).mpr (by simp [hm])
@@ -709,7 +709,7 @@ theorem w_of_sim {cfg : Cfg} {a : Spec.A} {s : State} (sim : Sim cfg a s) (mods 
     simp only [Bool.or_eq_true, List.any_eq_true]
     exact Or.inr ⟨am, hsub am hmem, by simp [hal, hmod]⟩
 
-theorem z_of_sim {cfg : Cfg} {a : Spec.A} {s : State} (sim : Sim cfg a s) : Z s := by
+theorem z_of_sim {cfg : Cfg} {a : Spec.A} {s : State} (sim : SimM cfg a s) : Z s := by
   refine ⟨sim.idxPos, fun h0 => ?_⟩
   cases hf : s.find 0 with
   | none => rfl
@@ -789,7 +789,7 @@ include ok
 handles it (`q = false`), possibly followed by the periodic section (`q = true`: the last frame of a round); `evs` are
 the events after the `rd` marker.  Every FAILED_MESSAGE among them is justified: `Spec.checkNoticeOrigin` returns its
 argument — for every state `X` with the table of `a`. -/
-theorem noticeOrigin_frame {a : Spec.A} {s : State} (sim : Sim cfg a s) (rd : Read) (hu0 : rd.uid ≠ 0) (q : Bool)
+theorem noticeOrigin_frame {a : Spec.A} {s : State} (sim : SimM cfg a s) (rd : Read) (hu0 : rd.uid ≠ 0) (q : Bool)
     (evs : List Ev) (he : (if q then ticks cfg (readOne cfg s rd) else readOne cfg s rd).out = s.out ++ Ev.rd rd.uid :: evs)
     (X : Spec.A) (hX : X.mods = a.mods) : Spec.checkNoticeOrigin cfg X (some rd) evs = X := by
   apply checkNoticeOrigin_ok
@@ -813,7 +813,7 @@ theorem noticeOrigin_frame {a : Spec.A} {s : State} (sim : Sim cfg a s) (rd : Re
 
 /-- **the origin of the notices, the stretch before the first read of a round** (clock, failure environment, `accept`
 with its log line, the poll; followed by the periodic section when no frame is read in the round: `q = true`) -/
-theorem noticeOrigin_pre {a : Spec.A} {s : State} (sim : Sim cfg a s) (r : Round) (q : Bool) (evs : List Ev)
+theorem noticeOrigin_pre {a : Spec.A} {s : State} (sim : SimM cfg a s) (r : Round) (q : Bool) (evs : List Ev)
     (he : (if q then ticks cfg (preS cfg s r) else preS cfg s r).out = s.out ++ evs)
     (X : Spec.A) (hX : X.mods = (preAcc a r).mods) : Spec.checkNoticeOrigin cfg X none evs = X := by
   apply checkNoticeOrigin_ok
